@@ -81,12 +81,14 @@ pub fn for_property(prop: &str) -> Vec<Family> {
         ],
         "C05" => vec![
             f("drop", "last owner dropped by callers and by jobs of other objects while work is queued, running, suspended or being woken", gen_drop, Q / 2, T / 2),
-            sw("drop-sweep", "drop of the last owner injected at every scheduling point of the context running the object's jobs", gen_drop_sweep, Q / 2, T / 2, 64),
+            sw("drop-sweep", "drop of the last owner injected at every scheduling point of the context running the object's jobs", gen_drop_sweep, Q * 3 / 8, T * 3 / 8, 64),
+            f("pipe-drop", "the pipe's own strong reference as the last owner: released through the drop of the output stream", gen_pipe_drop, Q / 8, T / 8),
         ],
         "C06" => vec![
-            f("wake", "future operations suspended on gates under each runner context, wake-ups at every relative timing", g_wake, Q / 2, T / 2),
+            f("wake", "future operations suspended on gates under each runner context, wake-ups at every relative timing", g_wake, Q * 3 / 8, T * 3 / 8),
             f("late-poll", "futures created early and polled late or never while other threads schedule", g_late, Q / 4, T / 4),
             sw("wake-sweep", "the wake-up injected at every scheduling point of the suspending context (pool thread / thread inside sync / polling task), with and without stale, duplicate and self wakes", gen_wake_sweep, Q / 4, T / 4, 48),
+            f("suspend", "the suspension job is itself a suspended future operation: resume must restart the queue under every runner", g_suspend, Q / 8, T / 8),
         ],
         "C07" => vec![
             f("handles", "future_desync/after handles awaited, polled out of order, .sync()-ed, detached, dropped", g_handles, Q / 2, T / 2),
